@@ -317,7 +317,7 @@ func (d *DocGen) Faults(doc any, schemaNode any) []struct {
 			if err != nil {
 				return
 			}
-			for key := range t.vals {
+			for _, key := range t.keys {
 				ps, declared := ov.Props[key]
 				if !declared {
 					if ov.HasAddl {
